@@ -721,7 +721,7 @@ def shrink(c):
 
 
 # ----------------------------------------------------------------------------- the PEP column of result files
-def _pipeline_levels(n, alg, seed, tmp):
+def _pipeline_levels(n, alg, seed, tmp, desc=True):
     """Run mokapot.assign_confidence on a small PIN-like table (rows in arbitrary order) and return, per level,
     the rows of targets.<level> + decoys.<level> as (score, is_target, posterior_error_prob)."""
     import copy
@@ -736,7 +736,10 @@ def _pipeline_levels(n, alg, seed, tmp):
     df = pd.DataFrame({
         "specid": np.arange(n), "target": tg.astype(int), "scannr": np.arange(n),
         "calcmass": rng.uniform(500, 2000, n), "expmass": np.arange(n) + 500.5,
-        "peptide": ["PEP%dK" % i for i in range(n)], "proteins": ["_dummy"] * n, "score": sc,
+        "peptide": ["PEP%dK" % i for i in range(n)], "proteins": ["_dummy"] * n,
+        # lower-is-better variant: the feature is the negated score and descs=[False]; the result files then
+        # hold the ranking score (negated feature) again
+        "score": sc if desc else -sc,
         "filename": "t.mzML", "ret_time": rng.uniform(0, 100, n), "charge": rng.choice([2, 3], n)})
     df = df.sample(frac=1, random_state=seed)
     pin = Path(tmp) / "t.pin"
@@ -748,7 +751,7 @@ def _pipeline_levels(n, alg, seed, tmp):
         protein_column="proteins", metadata_columns=["specid", "scannr", "expmass", "peptide", "proteins", "target"],
         metadata_column_types=["int", "int", "float", "string", "string", "int"], level_columns=["peptide"],
         specId_column="specid", spectra_dataframe=df[["scannr", "expmass", "target"]])
-    assign_confidence([psms], prefixes=[None], descs=[True], dest_dir=Path(tmp), max_workers=1, eval_fdr=0.5,
+    assign_confidence([psms], prefixes=[None], descs=[bool(desc)], dest_dir=Path(tmp), max_workers=1, eval_fdr=0.5,
                       decoys=True, peps_algorithm=alg)
     out = {}
     for lvl in ("psms", "peptides"):
@@ -767,13 +770,14 @@ def _pipeline_checks(ctx):
     rng = ctx.sub("pipeline")
     reps = 3 if ctx.thorough else 1
     for alg in PEP_ALGS:
-        for r in range(reps):
+        for r in range(2 * reps):
             n = rng.choice([200, 300, 500])
             seed = rng.randrange(10 ** 6)
-            what = f"assign_confidence(peps_algorithm={alg!r}) on {n} PSMs (table seed {seed})"
+            desc = (r % 2 == 0)
+            what = f"assign_confidence(peps_algorithm={alg!r}, descs=[{desc}]) on {n} PSMs (table seed {seed})"
             try:
                 with tempfile.TemporaryDirectory() as tmp:
-                    levels = _pipeline_levels(n, alg, seed, tmp)
+                    levels = _pipeline_levels(n, alg, seed, tmp, desc)
             except BaseException as e:  # noqa
                 if isinstance(e, (KeyboardInterrupt, MemoryError)):
                     raise
